@@ -23,7 +23,7 @@ var solvers = []solverDef{
 	{name: "z3-5.1.0", bin: "z3-new", args: func(t int) []string { return []string{"-smt2", "-in", fmt.Sprintf("-t:%d", t)} }},
 	{name: "z3-4.8.12", bin: "/usr/bin/z3", args: func(t int) []string { return []string{"-smt2", "-in", fmt.Sprintf("-t:%d", t)} }},
 	{name: "cvc5-1.0", bin: "cvc5", args: func(t int) []string {
-		return []string{"--lang=smt2", "--strings-exp", fmt.Sprintf("--tlimit-per=%d", t)}
+		return []string{"--lang=smt2", "--strings-exp", "--dt-nested-rec", fmt.Sprintf("--tlimit-per=%d", t)}
 	}},
 }
 
